@@ -498,6 +498,8 @@ def rule_r3(chk) -> None:
 
 
 def run(chk) -> None:
+    from ._engine import engine_view
+    chk.extra["helpers_inlined"] = engine_view(chk.repo)
     rule_r1(chk)
     rule_r2(chk)
     rule_r3(chk)
